@@ -18,6 +18,18 @@ CONSTANTS N, Vals, Bug, Emit
 KM == INSTANCE KMem
 S == INSTANCE KuSeg
 
+\* sanity of the segment algebra the monitors rest on (evaluated once at start-up)
+ASSUME /\ S!Same(<<<<3, 5000, 1>>, <<7, 3000, 0>>, <<3, 5000, 1>>>>, <<<<3, 2000, 1>>, <<(3 + 2000) % 251, 3000, 1>>, <<7, 3000, 0>>, <<3, 5000, 1>>>>)
+       /\ ~S!Same(<<<<3, 5000, 1>>, <<7, 3000, 0>>>>, <<<<3, 2000, 1>>, <<(3 + 2001) % 251, 3000, 1>>, <<7, 3000, 0>>>>)
+       /\ ~S!Same(<<<<3, 5000, 1>>>>, <<<<3, 4999, 1>>>>)
+       /\ ~S!Same(<<<<7, 3000, 0>>>>, <<<<7, 2999, 0>>, <<8, 1, 0>>>>)
+       /\ S!Same(<<<<250, 2, 1>>, <<1, 1, 0>>>>, <<<<250, 1, 0>>, <<0, 2, 1>>>>)
+       /\ ~S!Same(<<<<5, 10, 0>>>>, <<<<5, 10, 1>>>>)
+       /\ S!Take(<<<<9, 4, 1>>, <<1, 3, 0>>>>, 5) = <<<<9, 4, 1>>, <<1, 1, 0>>>>
+       /\ S!Drop(<<<<9, 4, 1>>, <<1, 3, 0>>>>, 2) = <<<<11, 2, 1>>, <<1, 3, 0>>>>
+       /\ S!Bytes(<<<<249, 4, 1>>, <<255, 2, 0>>>>) = <<249, 250, 0, 1, 255, 255>>
+       /\ S!Total(<<<<1, 2, 0>>, <<3, 0, 0>>, <<4, 5, 1>>>>) = 7
+
 VARIABLES mem, done, last, mismatch
 vars == <<mem, done, last, mismatch>>
 Pattern == [i \in 0..(N - 1) |-> 100 + i]              \* every cell distinct and different from Vals
